@@ -78,8 +78,22 @@ def load_known():
     return known, fixed
 
 
+SELFTEST = None     # set by ./check in the thorough tier: results of pv.selftest.run(prop)
+
+
 def finish(res, explanation, rule_text, trusted_base=None, checker_cmd=None):
     """Print the verdict, write report + evidence, return exit code."""
+    if SELFTEST is not None:
+        for r in SELFTEST:
+            k = "selftest:" + r["variant"]
+            if r["outcome"] in ("MISSED", "FALSE-ALARM"):
+                res.violation(k, "checker fault (fail closed): the rule %s on the recorded %s variant %s of the current tree — its verdict on /repo cannot be trusted" % (
+                    "no longer fires" if r["outcome"] == "MISSED" else "raises a false alarm", r["kind"], r["variant"]), rule="selftest")
+            elif r["outcome"] in ("reported", "silent"):
+                res.ok(k, "selftest", "%s variant %s" % (r["kind"], r["outcome"]))
+            else:
+                res.notes.append("selftest %s: %s" % (r["variant"], r["outcome"]))
+        res.analysed["selftest_variants_run"] = len([r for r in SELFTEST if r["outcome"] in ("reported", "silent", "MISSED", "FALSE-ALARM")])
     known, _ = load_known()
     kprop = known.get(res.prop, {})
     new = []
@@ -125,6 +139,8 @@ def finish(res, explanation, rule_text, trusted_base=None, checker_cmd=None):
         "known_findings_seen": [v["key"] for v in seen_known],
         "new_violations": [v["key"] for v in new],
     }
+    if SELFTEST is not None:
+        cov["selftest"] = SELFTEST
     ev = {
         "property_id": res.prop,
         "tier": res.tier,
